@@ -2,483 +2,284 @@
 
 import ast
 
-from ..absint import NONE, NOTNONE, TOP, DefaultDomain, Interp, State, val
-from ..astutil import FUNC_TYPES, attr_chain, dotted, norm, walk_shallow
-from ..cfg import live_nodes, node_calls
-from ..flow import explore
+from ..absint import NONE
+from ..astutil import walk_shallow
 from ..loader import AnalysisError
-from .common import REAL, TESTCASE, cfg_of, nodes_calling, own_method, str_const
+from . import resultmodel as rm
+from .common import REAL, TESTCASE
 
 EXPLANATION = (
-    "Forwarding rules over the adapters of testtools.testresult.real: R-FORWARD-ONCE (each protocol "
-    "method of TestResultDecorator forwards to the same-named method of self.decorated exactly once on "
-    "every path -- typestate counter on the CFG -- passing every one of its own parameters; each "
-    "MultiTestResult method calls _dispatch with its own name and all parameters once, _dispatch is "
-    "strict over the whole list; Tagger.startTest forwards before tagging), R-ETOD-FALLBACK (for every "
-    "outcome method of ExtendedToOriginalDecorator the number of *accepted* deliveries -- a call that "
-    "leaves through its TypeError edge counts as rejected -- is exactly one on every returning path and "
-    "at most one on raising paths; the converted exc_info/reason is what the fallback call passes), "
-    "R-DEGRADE-TABLE (target methods reachable from each outcome method equal the documented "
-    "degradation table; no failing outcome reaches a passing method), R-TEST-PROTOCOL (attributes used "
-    "on a reported test object exist on both TestCase and PlaceHolder), R-TBT-CALLBACK (TestByTestResult "
-    "calls its callback only from stopTest, once, with all six fields; each outcome sets the documented "
-    "status word and the details; tags are captured before the context is popped)."
+    "Client programs of the adapters, given as source and run as written (ttsa.rules.resultmodel): ExtendedToOriginalDecorator, "
+    "TestResultDecorator, Tagger, MultiTestResult and TestByTestResult are built over symbolic target results of three flavours -- "
+    "2.6-style (no addSkip / addExpectedFailure / addUnexpectedSuccess, no details= keyword), 2.7-style (all outcomes, no details=) and "
+    "extended (details= accepted); a target that does not take details= answers the attempt with TypeError -- and a history is "
+    "reported; the rules read what each target received, in order, with its arguments. R-FORWARD-ONCE: through TestResultDecorator, "
+    "Tagger, MultiTestResult (both targets) and two-level stacks every startTestRun / tags / time / startTest / outcome / stopTest / "
+    "stopTestRun / stop reaches each target exactly once, in order, with the arguments given (Tagger: its tags right after "
+    "startTest). R-ETOD-FALLBACK / R-DEGRADE-TABLE: for each flavour, each of the six outcomes and both ways of giving it (exc_info / "
+    "reason, or details) the target accepts exactly one delivery, of the method the documented degradation table names (skip and "
+    "expected failure become success on 2.6, unexpected success becomes failure), with the test first and -- where details had to "
+    "be converted -- an exc_info triple / a reason made from them; a failing outcome never arrives as a passing one. "
+    "R-PRESENCE-BY-NULLNESS: an empty details dict counts as details given (no ValueError, delivered as details) through "
+    "ExtendedToOriginalDecorator and TestByTestResult. R-TBT-CALLBACK: TestByTestResult calls its callback exactly once per "
+    "test, at stopTest, with the test, the status word of its outcome, the times reported before startTest / before stopTest, "
+    "the tags current in the test and the details. R-TEST-PROTOCOL (class table): every attribute the adapters read on a reported "
+    "test exists on TestCase and on PlaceHolder."
 )
 
-OUTCOMES = ["addError", "addFailure", "addSuccess", "addSkip", "addExpectedFailure", "addUnexpectedSuccess"]
-PROTOCOL = ["startTestRun", "stopTestRun", "startTest", "stopTest"] + OUTCOMES + ["tags", "time", "stop", "done", "progress", "wasSuccessful"]
-DEGRADE = {
-    "addSkip": {"addSkip", "addSuccess"},
-    "addExpectedFailure": {"addExpectedFailure", "addSuccess"},
-    "addUnexpectedSuccess": {"addUnexpectedSuccess", "addFailure"},
-    "addError": {"addError"},
-    "addFailure": {"addFailure"},
-    "addSuccess": {"addSuccess"},
+OUTCOMES = list(rm.OUTCOMES)
+TBT_STATUS = {"addSuccess": "success", "addFailure": "failure", "addError": "error", "addSkip": "skip", "addExpectedFailure": "xfail", "addUnexpectedSuccess": "success"}
+FLAVOURS = {
+    "2.6-style": {"lacks": ("addSkip", "addExpectedFailure", "addUnexpectedSuccess", "startTestRun", "stopTestRun", "tags", "time", "failfast", "current_tags", "done", "progress"), "details": False},
+    "2.7-style": {"lacks": ("tags", "time", "current_tags", "done", "progress"), "details": False},
+    "extended": {"lacks": (), "details": True},
 }
-TBT_STATUS = {"addSuccess": "success", "addFailure": "failure", "addError": "error", "addSkip": "skip",
-              "addExpectedFailure": "xfail", "addUnexpectedSuccess": "success"}
+DEGRADE = {
+    "2.6-style": {"addSkip": "addSuccess", "addExpectedFailure": "addSuccess", "addUnexpectedSuccess": "addFailure"},
+    "2.7-style": {}, "extended": {},
+}
+DETAILS = ("new", "Content", (("sym", "a content type"), ("sym", "a byte source")))
+D = ("kwdict", (("note", DETAILS),))
+T0, T1 = ("sym", "time before the test"), ("sym", "time at the end of the test")
 
 
-def own_params(func):
-    return [a.arg for a in func.args.args[1:]] + [a.arg for a in func.args.kwonlyargs]
+def _scenario(ctx, flavour, names=("plain",), **kw):
+    f = FLAVOURS[flavour]
+    lacks = {(n, a) for n in names for a in f["lacks"]}
 
-
-def passes_all_params(call, pnames, skip=0):
-    """Every parameter appears exactly once in the call (positionally in order or as p=p)."""
-    pos = [dotted(a) for a in call.args[skip:]]
-    kws = {k.arg: dotted(k.value) for k in call.keywords}
-    seen = []
-    for i, p in enumerate(pos):
-        if i >= len(pnames) or p != pnames[i]:
-            return False
-        seen.append(p)
-    for k, v in kws.items():
-        if k is None or k != v or k not in pnames or k in seen:
-            return False
-        seen.append(k)
-    return sorted(seen) == sorted(pnames)
-
-
-def counter_exploration(ctx, func, is_delivery):
-    cfg = cfg_of(ctx, func)
-    live = live_nodes(cfg)
-    hit = {n.id for n in cfg.nodes if n.id in live and any(is_delivery(c) for c in node_calls(n))}
-
-    def transfer(node, st, kind, target, exp, pair):
-        if node.id in hit and kind != "exc":
-            n = sum(1 for c in node_calls(node) if is_delivery(c))
-            return min(st + n, 2)
-        return st
-
-    exp = explore(cfg, 0, transfer)
-    ctx.stats["states"] += exp.size
-    return cfg, exp, hit
-
-
-class _TbtDomain(DefaultDomain):
-    """startTest / add<Outcome> / stopTest of TestByTestResult with the clock abstracted to the phase in
-    which it is read: _now() -> ("time", phase)."""
-
-    def __init__(self, classes):
-        self.classes = classes
-
-    def call(self, interp, call, st, fr):
-        d = dotted(call.func)
-        ch = attr_chain(call.func)
-        if d == "self._now":
-            return [val(("time", st.get("phase", "?")), st)]
-        if d == "self._on_test":
-            out = []
-            exprs = list(call.args) + [k.value for k in call.keywords]
-            for r in interp.eval_list(exprs, st, fr):
-                if r.kind == "exc":
-                    out.append(r)
-                    continue
-                kw = tuple(sorted((k.arg or "**", v) for k, v in zip(call.keywords, r.value[len(call.args):])))
-                pos = tuple(r.value[:len(call.args)])
-                out.append(val(NONE, r.state.set("ev.cb", r.state.get("ev.cb", ()) + ((pos, kw),))))
-            return out
-        if ch and ch[0] == "super()":
-            out = []
-            for r in interp.eval_list(list(call.args) + [k.value for k in call.keywords], st, fr):
-                out.append(r if r.kind == "exc" else val(NONE, r.state))
-            return out
-        if d == "set" and len(call.args) == 1:
-            return interp.eval(call.args[0], st, fr)
-        if ch and ch[0] == "self" and len(ch) == 2 and fr.receiver is not None:
-            owner, f = self.classes.resolve_method(fr.receiver, ch[1])
-            if isinstance(f, FUNC_TYPES) and owner is not None and not owner.external and owner.name == "TestByTestResult":
-                params = [p_.arg for p_ in f.args.args][1:]
-                out = []
-                for r in interp.eval_list(list(call.args), st, fr):
-                    if r.kind == "exc":
-                        out.append(r)
-                        continue
-                    argv = {params[i]: v for i, v in enumerate(r.value) if i < len(params)}
-                    s2 = r.state
-                    for k in call.keywords:
-                        if k.arg:
-                            for rk in interp.eval(k.value, s2, fr):
-                                if rk.kind == "val":
-                                    argv[k.arg] = rk.value
-                    out.extend(interp.inline(f, argv, s2, fr, receiver=fr.receiver))
-                return out
-        out = []
-        for r in interp.eval_list([a for a in call.args if not isinstance(a, ast.Starred)] + [k.value for k in call.keywords], st, fr):
-            out.append(r if r.kind == "exc" else val(NOTNONE, r.state))
-        return out
-
-    def load_attr(self, chain, st, fr):
-        if chain == ["self", "current_tags"]:
-            return ("tags-at", st.get("phase", "?"))
+    def oracle(n, pos, kw_):
+        who, _, method = n.partition(".")
+        if who in names and method in OUTCOMES and not f["details"] and any(k == "details" for k, _v in kw_):
+            return [("exc", ("exc", "TypeError"))]   # the target does not know the details= keyword
+        if n == "test.fail":
+            return [("exc", ("exc", "AssertionError", "test.fail"))]
+        if n == "test.id":
+            return [("val", ("const", "a.test.id"))]
         return None
+    attrs = {"self": ("self",), "test.failureException": ("excclass", "AssertionError")}
+    from ..absint import FALSE
+    for n_ in names:
+        for flag in ("failfast", "shouldStop"):
+            if flag not in f["lacks"]:
+                attrs[f"{n_}.{flag}"] = FALSE   # (plain data attributes of the target: it is not in failfast mode)
+    return rm.Scenario(ctx, accepting=tuple(names) + ("test", "semaphore", "callback"), lacks=lacks, oracle=oracle, attrs=attrs,
+                       ctors={"TracebackContent", "text_content", "Content", "_StringException", "_details_to_str"}, **kw)
 
 
-def check_tbt_protocol(ctx, tbt):
-    """Abstract run of startTest; add<Outcome>(details given / not given); stopTest: the callback gets this test,
-    the documented status word, the clock as read in startTest and in stopTest, and the details."""
-    dom = _TbtDomain(ctx.classes)
+def _received(r, who="plain"):
+    """Calls the target accepted: [(method, positional, keywords)] (attempts answered with TypeError are not deliveries)."""
+    return [(n.split(".", 1)[1], pos, dict(kw)) for n, pos, kw, tag in r.state.get("ev.calls", ()) if n.startswith(who + ".") and tag == "ok"]
 
-    def go(name, argv, st, phase):
-        owner, f = ctx.classes.resolve_method(tbt, name)
-        if not isinstance(f, FUNC_TYPES) or owner is not tbt:
-            raise AnalysisError(f"anchor vanished: TestByTestResult.{name}")
-        it = Interp(dom, max_depth=5)
-        res = it.analyze(f, argv, st.set("phase", phase), receiver=tbt, name=name)
-        ctx.stats["states"] += it.steps
-        for fn in it.functions:
-            ctx.analysed(fn)
-        return [State([(k, v) for k, v in r.state.items if k.startswith("self.") or k.startswith("ev.")]) for r in res if r.kind == "val"]
 
-    TEST = ("the-test",)
-    for m, word in TBT_STATUS.items():
-        f = tbt.methods.get(m)
-        if f is None:
-            raise AnalysisError(f"anchor vanished: TestByTestResult.{m}")
-        params = [p_.arg for p_ in f.args.args][1:]
-        for given in (True, False):
-            argv = {"test": TEST}
-            if "details" in params:
-                argv["details"] = ("the-details",) if given else NONE
-            if "err" in params:
-                argv["err"] = NONE if given else ("the-exc-info",)
-            if "reason" in params:
-                argv["reason"] = NONE if given else ("the-reason",)
-            finals = []
-            for s1 in go("startTest", {"test": TEST}, State(), "start"):
-                for s2 in go(m, argv, s1, "outcome"):
-                    finals.extend(go("stopTest", {"test": TEST}, s2, "stop"))
-            problems = []
-            if not finals:
-                problems.append("no path returns normally")
-            for sf in finals:
-                cbs = sf.get("ev.cb", ())
-                if len(cbs) != 1:
-                    problems.append(f"the callback runs {len(cbs)} times")
+def _attempts(r, who="plain"):
+    return [(n.split(".", 1)[1], tag) for n, pos, kw, tag in r.state.get("ev.calls", ()) if n.startswith(who + ".")]
+
+
+def _call(oc, form):
+    if form == "details":
+        return f"r.{oc}(test, details=details)"
+    return rm.outcome_call(oc)
+
+
+def check_etod(ctx, anchor):
+    Q = f"{REAL}:ExtendedToOriginalDecorator"
+    for flavour in FLAVOURS:
+        for oc in OUTCOMES:
+            for form in ("plain", "details"):
+                sc = _scenario(ctx, flavour)
+                res = sc.run(f"def scenario(test, err, details, plain):\n    r = ExtendedToOriginalDecorator(plain)\n    r.startTest(test)\n    {_call(oc, form)}\n    r.stopTest(test)\n    return None\n",
+                             test=rm.TEST, err=rm.ERR, details=D, plain=("wobj", "plain"))
+                want = DEGRADE[flavour].get(oc, oc)
+                fallback, table = set(), set()
+                for r in res:
+                    if r.kind != "val":
+                        fallback.add(f"the call raises {r.value!r}")
+                        continue
+                    got = [(m, pos, kw) for m, pos, kw in _received(r) if m in OUTCOMES]
+                    if len(got) != 1:
+                        fallback.add(f"the target accepts {len(got)} deliveries ({[m for m, _, _ in got]}; attempts {[a for a in _attempts(r) if a[0] in OUTCOMES]}); expected exactly one")
+                        continue
+                    m, pos, kw = got[0]
+                    if m != want:
+                        table.add(f"the target receives {m}; the documented delivery is {want}")
+                    if (oc in rm.FAILING) and m not in rm.FAILING:
+                        table.add(f"the failing outcome {oc} arrives as the passing {m}")
+                    if not pos or pos[0] != rm.TEST:
+                        fallback.add(f"{m} is not given the test first ({pos!r})")
+                    if form == "details" and FLAVOURS[flavour]["details"] and m == oc and kw.get("details") != D:
+                        fallback.add(f"the details do not reach a target that takes them ({m}{pos!r} {kw!r})")
+                    if form == "details" and not FLAVOURS[flavour]["details"] and m == oc and oc in ("addError", "addFailure", "addExpectedFailure"):
+                        if len(pos) != 2 or not (isinstance(pos[1], tuple) and pos[1][:1] == ("tuple",) and len(pos[1]) == 4):
+                            fallback.add(f"{m} falls back to {pos[1:]!r}; expected an exc_info triple made from the details")
+                    if form == "details" and not FLAVOURS[flavour]["details"] and m == oc == "addSkip" and (len(pos) != 2 or pos[1] in (NONE, None)):
+                        fallback.add(f"addSkip falls back to {pos[1:]!r}; expected a reason made from the details")
+                    if form == "plain" and m == oc and oc in ("addError", "addFailure", "addExpectedFailure") and tuple(pos[1:]) != (rm.ERR,):
+                        fallback.add(f"{m} is given {pos[1:]!r}; expected the exc_info it was called with")
+                    if form == "plain" and m == oc == "addSkip" and tuple(pos[1:]) != (("const", "a reason"),):
+                        fallback.add(f"addSkip is given {pos[1:]!r}; expected the reason it was called with")
+                label = f"{oc} given as {'details' if form == 'details' else 'exc_info / reason'} to a {flavour} result"
+                ctx.check("R-ETOD-FALLBACK", f"[{label}] exactly one accepted delivery, with the test and the (converted) argument", anchor, bool(res) and not fallback,
+                          "; ".join(sorted(fallback))[:800] or "the scenario was not followed to its end", examined=len(res), construct=f"{Q}.{oc}::{form} to {flavour}")
+                ctx.check("R-DEGRADE-TABLE", f"[{label}] the target receives {want}", anchor, bool(res) and not table, "; ".join(sorted(table)) or "the scenario was not followed to its end",
+                          examined=len(res), construct=f"{Q}.{oc}::table {form} to {flavour}")
+    ctx.floor("R-ETOD-FALLBACK", 30, "(flavour, outcome, form) triples")
+
+
+def check_forwarders(ctx, anchor):
+    stacks = {
+        "TestResultDecorator": ("r = TestResultDecorator(plain)", ("plain",), False),
+        "Tagger": ("r = Tagger(plain, {'new-tag'}, {'gone-tag'})", ("plain",), True),
+        "MultiTestResult": ("r = MultiTestResult(plain, plain2)", ("plain", "plain2"), False),
+        "Tagger over TestResultDecorator": ("r = Tagger(TestResultDecorator(plain), {'new-tag'}, {'gone-tag'})", ("plain",), True),
+        "ExtendedToOriginalDecorator over MultiTestResult": ("r = ExtendedToOriginalDecorator(MultiTestResult(plain, plain2))", ("plain", "plain2"), False),
+    }
+    for name, (build, targets, tagging) in stacks.items():
+        for oc in OUTCOMES:
+            for form in (("plain", "details") if ctx.tier == "thorough" or oc in ("addFailure", "addSkip") else ("plain",)):
+                sc = _scenario(ctx, "extended", names=("plain", "plain2"))
+                body = (f"    {build}\n    r.startTestRun()\n    r.time(t0)\n    r.tags(newtags, gonetags)\n    r.startTest(test)\n    {_call(oc, form)}\n    r.time(t1)\n    r.stopTest(test)\n"
+                        "    r.stop()\n    r.time(None)\n    r.stopTestRun()\n    return None\n")
+                res = sc.run("def scenario(test, err, details, plain, plain2, t0, t1, newtags, gonetags):\n" + body, test=rm.TEST, err=rm.ERR, details=D, plain=("wobj", "plain"),
+                             plain2=("wobj", "plain2"), t0=T0, t1=T1, newtags=("set", ("copy", ("tuple", ("const", "run-tag")))), gonetags=("set", ("empty",)))
+                problems = set()
+                for r in res:
+                    if r.kind != "val":
+                        problems.add(f"the history raises {r.value!r}")
+                        continue
+                    for who in targets:
+                        got = _received(r, who)
+                        seq = [m for m, _, _ in got]
+                        want = ["startTestRun", "time", "tags", "startTest"] + (["tags"] if tagging else []) + [oc, "time", "stopTest", "stop", "time", "stopTestRun"]
+                        if seq != want:
+                            problems.add(f"{who} receives {seq}; expected {want}")
+                            continue
+                        byname = {}
+                        for m, pos, kw in got:
+                            byname.setdefault(m, []).append((pos, kw))
+                        if byname["startTest"][0][0] != (rm.TEST,) or byname["stopTest"][0][0] != (rm.TEST,):
+                            problems.add(f"{who}: startTest / stopTest are not given the test")
+                        if [p for p, _ in byname["time"]] != [(T0,), (T1,), (NONE,)]:
+                            problems.add(f"{who}: the times arrive as {[p for p, _ in byname['time']]!r}")
+                        opos, okw = byname[oc][0]
+                        if not opos or opos[0] != rm.TEST:
+                            problems.add(f"{who}: {oc} is not given the test")
+                        if form == "details" and okw.get("details") != D:
+                            problems.add(f"{who}: {oc} arrives without the details it was called with ({opos!r} {okw!r})")
+                        if form == "plain" and oc in ("addError", "addFailure", "addExpectedFailure") and rm.ERR not in list(opos) + list(okw.values()):
+                            problems.add(f"{who}: {oc} arrives without the exc_info it was called with ({opos!r} {okw!r})")
+                        if form == "plain" and oc == "addSkip" and ("const", "a reason") not in list(opos) + list(okw.values()):
+                            problems.add(f"{who}: addSkip arrives without its reason ({opos!r} {okw!r})")
+                ctx.check("R-FORWARD-ONCE", f"[{name}; {oc} given as {'details' if form == 'details' else 'exc_info / reason'}] every call of the history reaches each target once, in order, with its arguments",
+                          anchor, bool(res) and not problems, "; ".join(sorted(problems))[:800] or "the scenario was not followed to its end", examined=len(res), construct=f"{REAL}:{name}::history {oc} {form}")
+    ctx.floor("R-FORWARD-ONCE", 20, "(stack, outcome) histories")
+
+
+def check_tbt(ctx, anchor):
+    Q = f"{REAL}:TestByTestResult"
+    for oc in OUTCOMES:
+        for form in ("plain", "details", "empty details"):
+            if form != "plain" and oc == "addSuccess" and form == "empty details":
+                pass
+            call = f"r.{oc}(test, details={{}})" if form == "empty details" else _call(oc, form)
+            sc = _scenario(ctx, "extended")
+            body = (f"    r = TestByTestResult(callback)\n    r.time(t0)\n    r.startTest(test)\n    r.tags(newtags, gonetags)\n    {call}\n    before_stop = 0\n    r.time(t1)\n    r.stopTest(test)\n"
+                    "    r.time(t2)\n    r.startTest(test)\n    r.addSuccess(test)\n    r.stopTest(test)\n    return None\n")
+            res = sc.run("def scenario(test, err, details, callback, t0, t1, t2, newtags, gonetags):\n" + body, test=rm.TEST, err=rm.ERR, details=D, callback=("wobj", "callback"), t0=T0, t1=T1,
+                         t2=("sym", "time of the second test"), newtags=("set", ("copy", ("tuple", ("const", "in-test-tag")))), gonetags=("set", ("empty",)))
+            problems, presence = set(), set()
+            for r in res:
+                if r.kind != "val":
+                    (presence if form == "empty details" else problems).add(f"the history raises {r.value!r}")
+                    continue
+                log = [(n, pos, dict(kw)) for n, pos, kw, tag in r.state.get("ev.calls", ())]
+                cbs = [(pos, kw) for n, pos, kw in log if n == "callback.__call__"]
+                if len(cbs) != 2:
+                    problems.add(f"the callback is called {len(cbs)} time(s) for two tests")
                     continue
                 pos, kw = cbs[0]
-                kwd = dict(kw)
-                if pos or set(kwd) != {"test", "status", "start_time", "stop_time", "tags", "details"}:
-                    problems.append(f"callback arguments are {sorted(kwd)} (+{len(pos)} positional)")
-                    continue
-                if kwd["test"] != TEST:
-                    problems.append("the callback does not get the test")
-                if kwd["status"] != ("const", word):
-                    problems.append(f"status is {kwd['status']!r}, documented {word!r}")
-                if kwd["start_time"] != ("time", "start"):
-                    problems.append(f"start_time is the clock as read during {kwd['start_time'][1] if isinstance(kwd['start_time'], tuple) and len(kwd['start_time']) > 1 else kwd['start_time']!r}, not at startTest")
-                if kwd["stop_time"] != ("time", "stop"):
-                    problems.append(f"stop_time is the clock as read during {kwd['stop_time'][1] if isinstance(kwd['stop_time'], tuple) and len(kwd['stop_time']) > 1 else kwd['stop_time']!r}, not at stopTest "
-                                    "(a time() call between the outcome and stopTest is lost)")
-                if kwd["tags"] != ("tags-at", "stop"):
-                    problems.append("tags are not the current tags at stopTest")
-                if given and kwd["details"] != ("the-details",):
-                    problems.append(f"details handed in are replaced by {kwd['details']!r}")
-                if not given and m not in ("addSuccess", "addUnexpectedSuccess") and kwd["details"] in (NONE, TOP):
-                    problems.append("no details are synthesised from err / reason")
-            ctx.check("R-TBT-CALLBACK", f"startTest; {m}({'details=D' if given else 'err / reason'}); stopTest -> one callback: status {word!r}, start/stop clock, tags, details", f,
-                      not problems, "; ".join(sorted(set(problems))), examined=len(finals), construct=f"{REAL}:TestByTestResult.{m}::protocol details={'given' if given else 'absent'}")
+                args = dict(kw)
+                if pos:
+                    args.update(dict(zip(("test", "status", "start_time", "stop_time", "tags", "details"), pos)))
+                if args.get("test") != rm.TEST:
+                    problems.add(f"the callback is not given the test ({args.get('test')!r})")
+                if args.get("status") != ("const", TBT_STATUS[oc]):
+                    problems.add(f"the status word for {oc} is {args.get('status')!r}; expected {TBT_STATUS[oc]!r}")
+                if args.get("start_time") != T0 or args.get("stop_time") != T1:
+                    problems.add(f"the times are ({args.get('start_time')!r}, {args.get('stop_time')!r}); expected the time reported before startTest and the one reported before stopTest")
+                tags = args.get("tags")
+                if "in-test-tag" not in repr(tags):
+                    problems.add(f"the tags are {tags!r}; expected the tags current in the test (in-test-tag)")
+                det = args.get("details")
+                if form == "details" and det != D:
+                    problems.add(f"the details are {det!r}; expected the ones given")
+                if form == "empty details" and det != ("kwdict", ()):
+                    presence.add(f"an empty details dict arrives as {det!r}")
+                if form == "plain" and oc in ("addError", "addFailure", "addExpectedFailure") and not (isinstance(det, tuple) and det[:1] == ("kwdict",) and det[1]):
+                    problems.add(f"the exc_info of {oc} does not arrive as a details dict ({det!r})")
+                if form == "plain" and oc == "addSkip" and "a reason" not in repr(det):
+                    problems.add(f"the skip reason does not arrive in the details ({det!r})")
+                # the second test does not inherit anything from the first
+                args2 = dict(cbs[1][1])
+                if cbs[1][0]:
+                    args2.update(dict(zip(("test", "status", "start_time", "stop_time", "tags", "details"), cbs[1][0])))
+                if args2.get("status") != ("const", "success") or "in-test-tag" in repr(args2.get("tags")) or args2.get("details") not in (NONE, None, ("kwdict", ())):
+                    problems.add(f"the second (passing) test is reported with {args2!r}: something of the first test is carried over")
+            if form == "empty details":
+                ctx.check("R-PRESENCE-BY-NULLNESS", f"[TestByTestResult; {oc} with an empty details dict] counts as details given", anchor, bool(res) and not presence and not problems,
+                          "; ".join(sorted(presence | problems))[:700] or "no path", examined=len(res), construct=f"{Q}.{oc}::empty details")
+            else:
+                ctx.check("R-TBT-CALLBACK", f"[{oc} given as {'details' if form == 'details' else 'exc_info / reason'}] one callback at stopTest with test, status, times, tags and details", anchor,
+                          bool(res) and not problems, "; ".join(sorted(problems))[:800] or "no path", examined=len(res), construct=f"{Q}::callback {oc} {form}")
+    # the callback comes at stopTest, not earlier
+    sc = _scenario(ctx, "extended")
+    res = sc.run("def scenario(test, err, callback):\n    r = TestByTestResult(callback)\n    r.startTest(test)\n    r.addError(test, err)\n    return None\n", test=rm.TEST, err=rm.ERR, callback=("wobj", "callback"))
+    early = [r for r in res if any(n == "callback.__call__" for n, _, _, _ in r.state.get("ev.calls", ()))]
+    ctx.check("R-TBT-CALLBACK", "the callback is not called before stopTest", anchor, bool(res) and not early, "the callback is called when the outcome arrives, before stopTest (stop time and tags are not final)",
+              examined=len(res), construct=f"{Q}::not before stopTest")
+    ctx.floor("R-TBT-CALLBACK", 10, "outcome forms")
 
 
-ETOD_LACKS_26 = {("d", "addSkip"), ("d", "addExpectedFailure"), ("d", "addUnexpectedSuccess")}
-T_, D_, E_, R_, CONV_ = ("arg", "test"), ("arg", "details"), ("arg", "err"), ("arg", "reason"), ("converted-exc-info",)
-
-
-def _etod_expected(m, level, mode):
-    """(target method, positional kinds, has details kw) of the single accepted delivery."""
-    if m in ("addError", "addFailure"):
-        if mode == "details":
-            return (m, [T_], True) if level == "extended" else (m, [T_, CONV_], False)
-        return (m, [T_, E_], False)
-    if m == "addExpectedFailure":
-        if level == "py26":
-            return ("addSuccess", [T_], False)
-        if mode == "details":
-            return (m, [T_], True) if level == "extended" else (m, [T_, CONV_], False)
-        return (m, [T_, E_], False)
-    if m == "addSkip":
-        if level == "py26":
-            return ("addSuccess", [T_], False)
-        if mode == "details":
-            return (m, [T_], True) if level == "extended" else (m, [T_, "?"], False)
-        return (m, [T_, R_], False)
-    if m == "addUnexpectedSuccess":
-        if level == "py26":
-            return ("addFailure", [T_, "?"], False)
-        return (m, [T_], mode == "details" and level == "extended")
-    return ("addSuccess", [T_], mode == "details" and level == "extended")
-
-
-def check_details_text(ctx, etod):
-    """Degradation of details to an old-style exc_info: the synthetic exception's text is derived from *every* detail
-    (text details by their text, binary / empty ones by name), the traceback included -- decided on an abstract run
-    of _details_to_exc_info (and the helpers it uses) with four symbolic contents whose texts are known constants."""
-    from .. import effects
-    from ..absint import NONE as A_NONE, State
-    f = etod.methods.get("_details_to_exc_info")
-    if f is None:
-        raise AnalysisError("anchor vanished: ExtendedToOriginalDecorator._details_to_exc_info")
-    texts = {"tb": "TRACEBACK-TEXT", "log": "LOG-TEXT", "blob": None, "nothing": "   "}
-    attrs = {"self": ("self",)}
-    for name, text in texts.items():
-        attrs[f"{name}.content_type"] = ("wobj", name + "-type")
-        attrs[f"{name}-type.type"] = ("const", "text" if text is not None else "application")
-
-    def oracle(n, pos, kw):
-        obj, _, meth = n.partition(".")
-        if obj in texts and meth == "as_text":
-            return [("val", ("const", texts[obj] or ""))]
-        if obj in texts and meth == "iter_text":
-            return [("val", ("tuple", ("const", texts[obj] or "")))]
-        return None
-
-    details = ("kwdict", (("traceback", ("wobj", "tb")), ("log", ("wobj", "log")), ("blob", ("wobj", "blob")), ("nothing", ("wobj", "nothing"))))
-    dom = effects.EffectDomain(ctx.classes, attrs=attrs, oracle=oracle, ctors={"_StringException"}, log_cap=30)
-    res = effects.run(ctx, dom, f, etod, {f.args.args[1].arg: details}, state=State(), depth=4)
+def check_presence(ctx, anchor):
+    Q = f"{REAL}:ExtendedToOriginalDecorator"
+    for oc in ("addError", "addFailure", "addSkip", "addExpectedFailure"):
+        sc = _scenario(ctx, "extended")
+        res = sc.run(f"def scenario(test, plain):\n    r = ExtendedToOriginalDecorator(plain)\n    r.startTest(test)\n    r.{oc}(test, details={{}})\n    r.stopTest(test)\n    return None\n", test=rm.TEST, plain=("wobj", "plain"))
+        problems = set()
+        for r in res:
+            got = [(m, pos, kw) for m, pos, kw in _received(r) if m in OUTCOMES]
+            if r.kind != "val":
+                problems.add(f"an empty details dict is taken for no details: the call raises {r.value!r}")
+            elif len(got) != 1 or got[0][0] != oc or got[0][2].get("details") != ("kwdict", ()):
+                problems.add(f"with details={{}} the target receives {[(m, kw) for m, _, kw in got]!r}; expected {oc}(test, details={{}})")
+        ctx.check("R-PRESENCE-BY-NULLNESS", f"[ExtendedToOriginalDecorator; {oc} with an empty details dict] counts as details given", anchor, bool(res) and not problems,
+                  "; ".join(sorted(problems)) or "no path", examined=len(res), construct=f"{Q}.{oc}::empty details")
+    # a reason that is given but empty is a reason given
+    sc = _scenario(ctx, "extended")
+    res = sc.run("def scenario(test, plain):\n    r = ExtendedToOriginalDecorator(plain)\n    r.startTest(test)\n    r.addSkip(test, '')\n    r.stopTest(test)\n    return None\n", test=rm.TEST, plain=("wobj", "plain"))
     problems = set()
-    if not res:
-        problems.add("no path explored")
     for r in res:
-        v = r.value if r.kind == "val" else None
-        text = None
-        if isinstance(v, tuple) and v[:1] == ("tuple",) and len(v) == 4 and isinstance(v[2], tuple) and v[2][:2] == ("new", "_StringException") and v[2][2]:
-            t = v[2][2][0]
-            if isinstance(t, tuple) and t[:1] == ("const",) and isinstance(t[1], str):
-                text = t[1]
-            elif isinstance(t, tuple) and t[:1] == ("concat",):
-                text = "".join(x[1] if isinstance(x, tuple) and x[:1] == ("const",) and isinstance(x[1], str) else "\x00" for x in t[1:])   # the known pieces of the text
-        if text is None:
-            problems.add(f"_details_to_exc_info gives {r.kind} {str(r.value)[:120]}; expected (_StringException, _StringException(<text of the details>), None)")
-            continue
-        for name, want in (("traceback", "TRACEBACK-TEXT"), ("log", "LOG-TEXT"), ("blob", "blob"), ("nothing", "nothing")):
-            if want not in text:
-                problems.add(f"the detail {name!r} does not appear in the synthetic exception's text: an old-style result loses it")
-    ctx.check("R-DEGRADE-TABLE", "details given to an old-style result: every detail (text, binary, empty, traceback) reaches the synthetic exception's text", f, not problems,
-              "; ".join(sorted(problems)), examined=len(res), construct=f"{REAL}:ExtendedToOriginalDecorator._details_to_exc_info::all-details")
+        got = [(m, pos, kw) for m, pos, kw in _received(r) if m in OUTCOMES]
+        if r.kind != "val" or len(got) != 1 or got[0][0] != "addSkip" or ("const", "") not in list(got[0][1]) + list(got[0][2].values()):
+            problems.add(f"addSkip(test, '') {'raises ' + repr(r.value) if r.kind == 'exc' else 'delivers ' + repr(got)}; expected the skip with its empty reason")
+    ctx.check("R-PRESENCE-BY-NULLNESS", "[ExtendedToOriginalDecorator; addSkip with an empty reason] counts as a reason given", anchor, bool(res) and not problems, "; ".join(sorted(problems)) or "no path",
+              examined=len(res), construct=f"{Q}.addSkip::empty reason")
+    # neither / both of err and details is refused
+    for args, label in (("test", "neither err nor details"), ("test, err, details=details", "both err and details")):
+        sc = _scenario(ctx, "extended")
+        res = sc.run(f"def scenario(test, err, details, plain):\n    r = ExtendedToOriginalDecorator(plain)\n    r.addError({args})\n    return None\n", test=rm.TEST, err=rm.ERR, details=D, plain=("wobj", "plain"))
+        bad = [r for r in res if not (r.kind == "exc" and r.value[:2] == ("exc", "ValueError")) or [m for m, _, _ in _received(r) if m in OUTCOMES]]
+        ctx.check("R-PRESENCE-BY-NULLNESS", f"[ExtendedToOriginalDecorator.addError with {label}] refused with ValueError, nothing delivered", anchor, bool(res) and not bad,
+                  f"addError({args}) {'returns' if bad and bad[0].kind == 'val' else 'behaves otherwise'}: {[(r.kind, r.value) for r in bad][:2]!r}", examined=len(res), construct=f"{Q}.addError::{label}")
 
 
-def check_etod_semantics(ctx, etod):
-    from .. import effects
+def check_test_protocol(ctx):
     classes = ctx.classes
-    for m in OUTCOMES:
-        f = etod.methods.get(m)
-        if f is None:
-            raise AnalysisError(f"anchor vanished: ExtendedToOriginalDecorator.{m}")
-        params = [a.arg for a in f.args.args][1:]
-        for level in ("extended", "py27", "py26"):
-            for mode in ("details", "plain"):
-                if mode == "plain" and m in ("addSuccess", "addUnexpectedSuccess") and level == "extended":
-                    pass
-                argv = {"test": T_}
-                if "details" in params:
-                    argv["details"] = D_ if mode == "details" else "None"
-                if "err" in params:
-                    argv["err"] = "None" if mode == "details" else E_
-                if "reason" in params:
-                    argv["reason"] = "None" if mode == "details" else R_
-
-                def oracle(name, pos, kw, level=level):
-                    if not name.startswith("d."):
-                        return None
-                    if level != "extended" and any(k == "details" for k, _ in kw):
-                        return [("exc", ("exc", "TypeError"))]
-                    return [("val", ("ret", name))]
-
-                dom = effects.EffectDomain(classes, attrs={"self.decorated": ("wobj", "d"), "self.failfast": "False", "self._failfast": "False"},
-                                           lacks=ETOD_LACKS_26 if level == "py26" else (), oracle=oracle,
-                                           results={"self._details_to_exc_info": [CONV_], "test.fail": []}, raises={"test.fail": [("exc", "failureException")]},
-                                           track=lambda d: False)
-                res = effects.run(ctx, dom, f, etod, argv)
-                want_m, want_pos, want_details = _etod_expected(m, level, mode)
-                problems = set()
-                n_ret = 0
-                for r in res:
-                    deliveries = [e for e in effects.calls(r) if e[0].startswith("d.add")]
-                    accepted = [e for e in deliveries if e[3] == "ok"]
-                    rejected = [e for e in deliveries if e[3] != "ok"]
-                    if r.kind != "val":
-                        if len(accepted) >= 1 and r.value == ("exc", "TypeError"):
-                            problems.add("a TypeError escapes after the outcome was already delivered")
-                        elif r.value == ("exc", "TypeError"):
-                            problems.add("the target's TypeError (it does not take details=) escapes instead of being degraded")
-                        continue
-                    n_ret += 1
-                    if len(accepted) != 1:
-                        problems.add(f"a returning path makes {len(accepted)} accepted deliveries ({[e[0] for e in accepted]}); must be exactly 1")
-                        continue
-                    name, pos, kw, _ = accepted[0]
-                    has_details = any(k == "details" for k, _ in kw)
-                    pos_ok = len(pos) == len(want_pos) and all(w == "?" or w == p for w, p in zip(want_pos, pos))
-                    if name != "d." + want_m or has_details != want_details or not pos_ok or (has_details and dict(kw).get("details") != D_):
-                        problems.add(f"delivers {name[2:]}({', '.join(map(repr, pos))}{', details=...' if has_details else ''}); documented: {want_m}"
-                                     f"({', '.join('...' if w == '?' else repr(w) for w in want_pos)}{', details=details' if want_details else ''})")
-                    if any(not any(k == "details" for k, _ in e[2]) for e in rejected):
-                        problems.add("a delivery without details= is rejected")
-                if n_ret == 0:
-                    problems.add("no returning path")
-                rule = "R-DEGRADE-TABLE" if (level == "py26" and want_m != m) else "R-ETOD-FALLBACK"
-                ctx.check(rule, f"{m}({'details' if mode == 'details' else 'err/reason'}) to a {level} result -> exactly one {want_m}", f, not problems,
-                          f"ExtendedToOriginalDecorator.{m} with {'details=' if mode == 'details' else 'the plain argument'} against a {level} result: " + "; ".join(sorted(problems)),
-                          examined=len(res), construct=f"{REAL}:ExtendedToOriginalDecorator.{m}::{level}-{mode}")
-
-
-def run(ctx):
-    ctx.rule("R-FORWARD-ONCE", "each adapter method forwards to the same-named target method exactly once with all arguments")
-    ctx.rule("R-ETOD-FALLBACK", "ExtendedToOriginalDecorator: exactly one accepted delivery per outcome call")
-    ctx.rule("R-DEGRADE-TABLE", "reachable target methods equal the documented degradation table")
-    ctx.rule("R-TEST-PROTOCOL", "attributes used on reported test objects exist on TestCase and PlaceHolder")
-    ctx.rule("R-TBT-CALLBACK", "TestByTestResult: one callback per test at stopTest with status, times, tags, details")
-    classes = ctx.classes
-
-    # ------------------------------------------------------------------ R-FORWARD-ONCE: TestResultDecorator
-    trd = classes.get(REAL, "TestResultDecorator")
-    for m in PROTOCOL:
-        f = trd.methods.get(m)
-        if f is None:
-            if m == "done":
-                continue  # not part of the decorator's surface today
-            ctx.check("R-FORWARD-ONCE", f"TestResultDecorator.{m} exists", trd.node, False, f"TestResultDecorator no longer forwards {m}",
-                      construct=f"{REAL}:TestResultDecorator::{m}")
-            continue
-        pn = own_params(f)
-
-        def is_fwd(c, m=m):
-            return dotted(c.func) == f"self.decorated.{m}"
-
-        cfg, exp, hit = counter_exploration(ctx, f, is_fwd)
-        counts = exp.states_at(cfg.exit_return)
-        other = [c for c in walk_shallow(f, include_self=False) if isinstance(c, ast.Call) and (dotted(c.func) or "").startswith("self.decorated.") and not is_fwd(c)]
-        ok = counts == {1} and not other
-        msg = f"forward count on returning paths {sorted(counts)}; other target calls {[norm(c.func) for c in other]}"
-        argok = all(passes_all_params(c, pn) for n in hit for c in node_calls(cfg.nodes[n]) if is_fwd(c))
-        if ok and not argok:
-            ok = False
-            msg = f"the forwarding call does not pass all of {pn} through unchanged"
-        ctx.check("R-FORWARD-ONCE", f"TestResultDecorator.{m} -> decorated.{m}", f, ok, msg, examined=exp.size,
-                  construct=f"{REAL}:TestResultDecorator.{m}::forward")
-        # the value of the target call is returned
-    for p in ("current_tags", "shouldStop", "testsRun"):
-        g = trd.properties.get(p, (None, None))[0]
-        ok = isinstance(g, FUNC_TYPES) and any(isinstance(r, ast.Return) and dotted(r.value) == f"self.decorated.{p}" for r in walk_shallow(g, include_self=False))
-        ctx.check("R-FORWARD-ONCE", f"TestResultDecorator.{p} reads decorated.{p}", g if isinstance(g, FUNC_TYPES) else trd.node, ok,
-                  f"property {p} does not read self.decorated.{p}", construct=f"{REAL}:TestResultDecorator.{p}::forward")
-    # Tagger
-    tg = own_method(ctx, REAL, "Tagger", "startTest")
-    gcfg = cfg_of(ctx, tg)
-    glive = live_nodes(gcfg)
-    s_nodes = nodes_calling(gcfg, lambda c: dotted(c.func) == "super().startTest", glive)
-    t_nodes = nodes_calling(gcfg, lambda c: dotted(c.func) == "self.tags", glive)
-    ok = len(s_nodes) == 1 and len(t_nodes) == 1 and gcfg.dominated_by(t_nodes[0], set(s_nodes))
-    if ok:
-        tc = [c for c in node_calls(gcfg.nodes[t_nodes[0]]) if dotted(c.func) == "self.tags"][0]
-        ok = [dotted(a) for a in tc.args] == ["self._new_tags", "self._gone_tags"] and gcfg.escape_path(gcfg.after(s_nodes[0]), set(t_nodes), targets=[gcfg.exit_return]) is None
-    ctx.check("R-FORWARD-ONCE", "Tagger.startTest forwards startTest, then applies its tags", tg, ok,
-              "Tagger.startTest must call super().startTest(test) and then self.tags(self._new_tags, self._gone_tags) on every path",
-              construct=f"{REAL}:Tagger.startTest::order")
-
-    # ------------------------------------------------------------------ R-FORWARD-ONCE: MultiTestResult
-    mtr = classes.get(REAL, "MultiTestResult")
-    n_multi = 0
-    for m in PROTOCOL:
-        f = mtr.methods.get(m)
-        if f is None:
-            if m == "progress":
-                continue
-            ctx.check("R-FORWARD-ONCE", f"MultiTestResult.{m} exists", mtr.node, False, f"MultiTestResult no longer dispatches {m}",
-                      construct=f"{REAL}:MultiTestResult::{m}")
-            continue
-        pn = own_params(f)
-
-        def is_disp(c, m=m):
-            return dotted(c.func) == "self._dispatch" and c.args and str_const(c.args[0]) == m
-
-        cfg, exp, hit = counter_exploration(ctx, f, is_disp)
-        counts = exp.states_at(cfg.exit_return)
-        other = [c for c in walk_shallow(f, include_self=False) if isinstance(c, ast.Call) and dotted(c.func) == "self._dispatch" and not is_disp(c)]
-        ok = counts == {1} and not other
-        msg = f"dispatch count on returning paths {sorted(counts)}; other dispatches {[norm(c)[:40] for c in other]}"
-        argok = all(passes_all_params(c, pn, skip=1) for n in hit for c in node_calls(cfg.nodes[n]) if is_disp(c))
-        if ok and not argok:
-            ok = False
-            msg = f"_dispatch({m!r}, ...) does not pass all of {pn} through unchanged"
-        n_multi += 1
-        ctx.check("R-FORWARD-ONCE", f"MultiTestResult.{m} -> _dispatch('{m}')", f, ok, msg, examined=exp.size,
-                  construct=f"{REAL}:MultiTestResult.{m}::dispatch")
-    d = own_method(ctx, REAL, "MultiTestResult", "_dispatch")
-    from .. import effects
-    mtr_cls = classes.get(REAL, "MultiTestResult")
-    dom_ = effects.EffectDomain(classes, attrs={"self._results": ("tuple", ("wobj", "w0"), ("wobj", "w1"))})
-    res_ = effects.run(ctx, dom_, d, mtr_cls, {"message": ("const", "anyMethod"), (d.args.vararg.arg if d.args.vararg else "args"): ("tuple", ("arg", 0)),
-                                              (d.args.kwarg.arg if d.args.kwarg else "kwargs"): ("kwdict", (("k", ("arg", "k")),))})
-    want_calls = [("w0.anyMethod", (("arg", 0),), (("k", ("arg", "k")),), "ok"), ("w1.anyMethod", (("arg", 0),), (("k", ("arg", "k")),), "ok")]
-    ok = bool(res_) and all(r.kind == "val" and effects.calls(r) == want_calls and r.value == ("tuple", ("ret", "w0", "anyMethod"), ("ret", "w1", "anyMethod")) for r in res_)
-    ctx.check("R-FORWARD-ONCE", "MultiTestResult._dispatch calls the message on every wrapped result, eagerly, with all arguments", d, ok,
-              "_dispatch must build tuple/list of getattr(result, message)(*args, **kwargs) for every result in self._results",
-              construct=f"{REAL}:MultiTestResult._dispatch::strict-all")
-    mi = own_method(ctx, REAL, "MultiTestResult", "__init__")
-    ok = any(isinstance(n, ast.Assign) and dotted(n.targets[0]) == "self._results" and "ExtendedToOriginalDecorator" in norm(n.value) and mi.args.vararg and mi.args.vararg.arg in norm(n.value)
-             for n in walk_shallow(mi, include_self=False))
-    ctx.check("R-FORWARD-ONCE", "MultiTestResult wraps every constituent in ExtendedToOriginalDecorator", mi, ok,
-              "constituent results are not all wrapped, so old-style results would reject extended calls", construct=f"{REAL}:MultiTestResult.__init__::wrap")
-    ctx.floor("R-FORWARD-ONCE", 34)
-
-    # ------------------------------------------------------------------ R-ETOD-FALLBACK / R-DEGRADE-TABLE
-    # decided on abstract runs of each outcome method against three kinds of decorated result: one that takes
-    # details= (extended), one that has every method but rejects details= with TypeError (2.7-style) and one that
-    # also lacks addSkip / addExpectedFailure / addUnexpectedSuccess (2.6-style)
-    etod = classes.get(REAL, "ExtendedToOriginalDecorator")
-    check_etod_semantics(ctx, etod)
-    check_details_text(ctx, etod)
-    ctx.floor("R-ETOD-FALLBACK", 14)
-    # _details_to_exc_info builds the synthetic exception from the details text
-    dte = own_method(ctx, REAL, "ExtendedToOriginalDecorator", "_details_to_exc_info")
-    dte_defs = {n.targets[0].id: n.value for n in walk_shallow(dte, include_self=False) if isinstance(n, ast.Assign) and len(n.targets) == 1 and isinstance(n.targets[0], ast.Name)}
-
-    def is_details_text(x):
-        if isinstance(x, ast.Name) and x.id in dte_defs:
-            x = dte_defs[x.id]
-        return isinstance(x, ast.Call) and dotted(x.func) == "_details_to_str" and x.args and dotted(x.args[0]) == "details"
-
-    ok = any(isinstance(c, ast.Call) and dotted(c.func) == "_StringException" and c.args and is_details_text(c.args[0]) for c in ast.walk(dte))
-    ctx.check("R-DEGRADE-TABLE", "synthetic exception is built from the details text", dte, ok, "_details_to_exc_info no longer wraps _details_to_str(details)",
-              construct=f"{REAL}:ExtendedToOriginalDecorator._details_to_exc_info::text")
-    # start/stop forwarding of ETOD
-    for m in ("startTest", "stopTest"):
-        f = own_method(ctx, REAL, "ExtendedToOriginalDecorator", m)
-        cfg, exp, hit = counter_exploration(ctx, f, lambda c, m=m: dotted(c.func) == f"self.decorated.{m}")
-        counts = exp.states_at(cfg.exit_return)
-        argok = all(passes_all_params(c, own_params(f)) for n in hit for c in node_calls(cfg.nodes[n]) if dotted(c.func) == f"self.decorated.{m}")
-        ctx.check("R-FORWARD-ONCE", f"ExtendedToOriginalDecorator.{m} -> decorated.{m}", f, counts == {1} and argok, f"forward count {sorted(counts)}", examined=exp.size,
-                  construct=f"{REAL}:ExtendedToOriginalDecorator.{m}::forward")
-
-    # ------------------------------------------------------------------ R-TEST-PROTOCOL
     tcase = classes.get(TESTCASE, "TestCase")
     holder = classes.get(TESTCASE, "PlaceHolder")
     tc_attrs = set()
     for c in classes.mro(tcase):
         tc_attrs |= set(c.methods) | set(c.attrs) | set(c.properties)
     ph_attrs = set(holder.methods) | set(holder.attrs) | set(holder.properties)
-    n_uses = 0
     for c in classes.all:
         if c.external or c.module.name != REAL:
             continue
@@ -488,7 +289,6 @@ def run(ctx):
                 continue
             for n in walk_shallow(f, include_self=False):
                 if isinstance(n, ast.Attribute) and isinstance(n.value, ast.Name) and n.value.id == "test" and isinstance(n.ctx, ast.Load):
-                    n_uses += 1
                     in_tc = n.attr in tc_attrs
                     in_ph = n.attr in ph_attrs
                     problem = ""
@@ -503,67 +303,20 @@ def run(ctx):
                               construct=f"{REAL}:{c.name}.{mname}::test.{n.attr}")
     ctx.floor("R-TEST-PROTOCOL", 4, "attribute uses on test objects")
 
-    # ------------------------------------------------------------------ presence of err / details is decided by nullness
-    ctx.rule("R-PRESENCE-BY-NULLNESS", "whether err / details was supplied is decided with `is None`, never by truthiness")
-    n_presence = 0
-    for c in classes.all:
-        if c.external or c.module.name != REAL:
-            continue
-        for mname, f in c.methods.items():
-            pn = {a.arg for a in f.args.args} & {"err", "details"}
-            if not pn:
-                continue
-            for n in walk_shallow(f, include_self=False):
-                tests = []
-                if isinstance(n, (ast.If, ast.While, ast.IfExp)):
-                    tests.append(n.test)
-                elif isinstance(n, ast.BoolOp):
-                    tests.extend(n.values[:-1] if not isinstance(getattr(n, "_parent", None), (ast.If, ast.While, ast.IfExp)) else [])
-                elif isinstance(n, ast.UnaryOp) and isinstance(n.op, ast.Not):
-                    tests.append(n.operand)
-                elif isinstance(n, ast.Call) and dotted(n.func) == "bool" and n.args:
-                    tests.append(n.args[0])
-                for t in tests:
-                    parts = t.values if isinstance(t, ast.BoolOp) else [t]
-                    for p_ in parts:
-                        if isinstance(p_, ast.UnaryOp) and isinstance(p_.op, ast.Not):
-                            p_ = p_.operand
-                        if isinstance(p_, ast.Name) and p_.id in pn:
-                            n_presence += 1
-                            ctx.check("R-PRESENCE-BY-NULLNESS", f"{c.name}.{mname}: truthiness test of `{p_.id}`", p_, False,
-                                      f"{c.name}.{mname} decides whether `{p_.id}` was supplied by truthiness: a supplied but falsy value (an empty details dict, an empty "
-                                      "reason passed as err) is treated as absent -- the call raises or converts the wrong representation and the outcome is not delivered as given",
-                                      construct=f"{REAL}:{c.name}.{mname}::truthiness of {p_.id}")
-            nulls = [x for x in walk_shallow(f, include_self=False) if isinstance(x, ast.Compare) and isinstance(x.ops[0], (ast.Is, ast.IsNot)) and dotted(x.left) in pn]
-            for x in nulls:
-                ctx.check("R-PRESENCE-BY-NULLNESS", f"{c.name}.{mname}: `{norm(x)}`", x, True)
-    ctx.floor("R-PRESENCE-BY-NULLNESS", 16, "presence tests")
 
-    # ------------------------------------------------------------------ R-TBT-CALLBACK
-    tbt = classes.get(REAL, "TestByTestResult")
-    callers = []
-    for mname, f in tbt.methods.items():
-        for c in walk_shallow(f, include_self=False):
-            if isinstance(c, ast.Call) and dotted(c.func) == "self._on_test":
-                callers.append(mname)
-    ctx.check("R-TBT-CALLBACK", "callback invoked only from stopTest", tbt.node, callers == ["stopTest"], f"_on_test is called from {callers}",
-              construct=f"{REAL}:TestByTestResult::callers")
-    st = own_method(ctx, REAL, "TestByTestResult", "stopTest")
-    cfg, exp, hit = counter_exploration(ctx, st, lambda c: dotted(c.func) == "self._on_test")
-    counts = exp.states_at(cfg.exit_return)
-    ctx.check("R-TBT-CALLBACK", "exactly one callback per stopTest", st, counts == {1}, f"callback count on returning paths {sorted(counts)}", examined=exp.size,
-              construct=f"{REAL}:TestByTestResult.stopTest::once")
-    live = live_nodes(cfg)
-    for n in hit:
-        for c in node_calls(cfg.nodes[n]):
-            if dotted(c.func) == "self._on_test":
-                kws = {k.arg: k.value for k in c.keywords}
-                tags_var = dotted(kws.get("tags"))
-                cap = [x.id for x in cfg.nodes if x.id in live and x.kind == "stmt" and isinstance(x.ast, ast.Assign) and dotted(x.ast.targets[0]) == tags_var and "self.current_tags" in norm(x.ast.value)]
-                sup = nodes_calling(cfg, lambda cc: dotted(cc.func) == "super().stopTest", live)
-                ok = bool(cap) and bool(sup) and cfg.dominated_by(sup[0], set(cap)) and not (set(cfg.reach(cfg.after(sup[0]))) & set(cap))
-                ctx.check("R-TBT-CALLBACK", "tags captured before the tag context is popped", st, ok,
-                          "the tags handed to the callback are read after super().stopTest(): the test-local tags are already gone",
-                          construct=f"{REAL}:TestByTestResult.stopTest::tags-before-pop")
-    check_tbt_protocol(ctx, tbt)
+def run(ctx):
+    ctx.rule("R-FORWARD-ONCE", "every call of a history reaches each wrapped result exactly once, in order, with its arguments")
+    ctx.rule("R-ETOD-FALLBACK", "ExtendedToOriginalDecorator: exactly one accepted delivery per outcome call, with the (converted) argument")
+    ctx.rule("R-DEGRADE-TABLE", "the method a target receives is the one the documented degradation table names")
+    ctx.rule("R-TEST-PROTOCOL", "attributes used on reported test objects exist on TestCase and PlaceHolder")
+    ctx.rule("R-TBT-CALLBACK", "TestByTestResult: one callback per test at stopTest with status, times, tags, details")
+    ctx.rule("R-PRESENCE-BY-NULLNESS", "whether err / details was supplied is decided with `is None`, never by truthiness")
+    etod = ctx.classes.get(REAL, "ExtendedToOriginalDecorator")
+    if etod is None:
+        raise AnalysisError("anchor vanished: ExtendedToOriginalDecorator")
+    check_etod(ctx, etod.node)
+    check_forwarders(ctx, ctx.classes.get(REAL, "TestResultDecorator").node)
+    check_tbt(ctx, ctx.classes.get(REAL, "TestByTestResult").node)
+    check_presence(ctx, etod.node)
+    check_test_protocol(ctx)
     ctx.assume("a TypeError raised by the first (details=) attempt is the target's signature rejection, not an error after partial acceptance")
